@@ -21,10 +21,10 @@ from vlib import common as C
 
 META = {
     'property_id': 'C08',
-    'technique': 'Lean 4 theorems by induction over arbitrary histories of an executable model of var.go/ue_var.go/builder.go (Var, UnExportedVar, Reset) + differential run of whole histories against the real code over 25 variable types, by pointer and by symbol name',
+    'technique': 'Lean 4 theorems by induction over arbitrary histories of an executable model of var.go/ue_var.go/builder.go (Var, UnExportedVar, Pkg, Reset) + differential run of whole histories against the real code over 26 variable types, by pointer and by symbol name, incl. heap-built values under forced garbage collection',
     'level': 'proof',
-    'level_text': 'Full proof on the model: for every variable type and value (incl. nil interfaces and typed nils), and every history of lookups through the builder cache, Set, Apply, Cancel, Reset (any map iteration order) and direct assignments in which a variable is mocked through one mocker at a time, the variable holds after Cancel/Reset exactly the value it had before its first mock; Cancel/Reset never panic and leave un-mocked variables untouched (also when repeated); a successful Set/Apply makes the variable hold the set value; failed Set/Apply and operations on other variables leave it untouched. The theorems are about the code with fix F8; the unrepaired code is refuted in Findings/C08F8.lean and by replayable violations.',
-    'level_note': 'Trusted: Lean kernel (axioms propext, Classical.choice, Quot.sound at most); the hand-written model Model/Var.lean, tied to the current source on every run by differential execution of thousands of histories (all 25 types, both addressing modes, malformed values, stale handles, two builders); the three facts about reflect the model encodes (ValueOf(nil) is invalid, Set panics on invalid/non-assignable, assignability rule - the latter compared with reflect on all type pairs each run). Not modelled: overlaying an unexported variable with a value of another type (documented as unpredictable by goom; an unexported variable of interface type can therefore not be mocked by name: recorded as known finding K-C08-ue-iface, demonstrated on every run in a child process, refuted in Findings/C08F8.lean), mocking one variable through two mockers at once (two builders, or pointer and name together), data races, GC of the mocker.',
+    'level_text': 'Full proof on the model: for every variable type and value (incl. nil interfaces and typed nils), and every history of lookups through the builder cache (any pending Pkg override), Set, Apply, Cancel, Reset (any map iteration order) and direct assignments in which no two mockers hold a mock of one variable at the same time, the variable holds after Cancel/Reset exactly the value it had before its first mock; a well-typed Set/Apply succeeds and makes the variable hold the value; Cancel/Reset never panic and leave un-mocked variables untouched (also when repeated); failed Set/Apply and operations on other variables leave it untouched; every lookup returns the one mocker of (builder, variable). Without that discipline (several builders on one variable) the per-mocker clause is proved for Reset-free histories (restore_own_first_partial). The theorems are about the code with fixes F8 and F27; the unrepaired code and the three known findings are refuted in Findings/C08F8.lean and by replayable inputs.',
+    'level_note': 'Trusted: Lean kernel (axioms propext, Classical.choice, Quot.sound at most); the hand-written model Model/Var.lean, tied to the current source on every run by differential execution of thousands of histories (26 types incl. a 64-byte struct, variables of another package with initialised data, both addressing modes, malformed values and callbacks, kept handles, two builders, other mocker kinds in the builder, Pkg overrides); the three facts about reflect the model encodes (ValueOf(nil) is invalid, Set panics on invalid/non-assignable, assignability rule - compared with reflect on all type pairs each run). Observed, not proved: that the saved origin stays reachable for the garbage collector and is copied whole (heap-built pre-mock values + forced GC + allocation churn lane), exact symbol-name resolution (decoy symbols: longer names, same short name in another package, path-suffix package). Not exercisable here: the load slide (PIE lookup fails on this toolchain even on unchanged code; probes are pinned to -buildmode=exe). Known findings (demonstrated on every run, exit 0): K-C08-ue-iface (unexported interface-typed variable by name), K-C08-mixed-addressing (pointer and name for one variable in one builder), K-C08-set-nil-interface. Not modelled: overlaying an unexported variable with another type (documented unpredictable), overlapping variables (&s and &s.f share a cache key), data races.',
 }
 
 H = os.path.join(C.HARNESS, 'c08')
@@ -150,7 +150,7 @@ def gen_hist(rng, lane, stripped=False):
     if rng.chance(1, 12):
         plan.insert(rng.below(len(plan) + 1), ('lookbad', None))
     # garbage collections (+ allocation churn) while mocks are active; other kinds of mockers in the same builder
-    for _ in range((1 + rng.below(3)) if lane == 'gc' else (1 if rng.chance(1, 25) else 0)):
+    for _ in range((1 + rng.below(3)) if lane == 'gc' else (1 if rng.chance(1, 150) else 0)):
         plan.insert(1 + rng.below(len(plan)), ('gc', None))
     if rng.chance(1, 6):
         for _ in range(1 + rng.below(2)):
@@ -373,9 +373,11 @@ def _probe_once(binary, ops_path, outp, start, timeout):
         return 'timeout', 'probe killed after timeout'
 
 
-def run_impl(binary, ops, tag, timeout=1800):
+def run_impl(binary, ops, tag, timeout=None):
     """Run the probe (timeout >= 10x the typical wall time).  A crash or kill loses nothing before it: the line it died on
     is re-run ONCE alone (only a reproducing crash/timeout is reported as the observation `crash`), then the remainder."""
+    if timeout is None:
+        timeout = 1800 + len(ops) // 10          # typical: 1 ms per history unloaded; >= 10x that plus a floor
     ops_path = os.path.join(C.BUILD, f'{tag}.ops')
     open(ops_path, 'w').write('\n'.join(ops) + '\n')
     impl = [None] * len(ops)
@@ -508,7 +510,7 @@ def run(tier):
     out = C.Outcome('C08', tier)
     rng = C.Rng(C.seed()).fork('C08')
     proof = C.prove('C08', leanchecker=(tier == 'thorough'))
-    n_disc, n_long, n_wild, n_strip, n_gc = (1500, 200, 500, 60, 250) if tier == 'quick' else (300000, 30000, 100000, 2000, 6000)
+    n_disc, n_long, n_wild, n_strip, n_gc = (1500, 200, 500, 60, 250) if tier == 'quick' else (120000, 12000, 40000, 1000, 3000)
     hists = corpus_hists()
     hists += [gen_hist(rng, 'disc') for _ in range(n_disc)]
     hists += [gen_hist(rng, 'long') for _ in range(n_long)]
